@@ -357,18 +357,29 @@ def jax_exact(n, rank=None, perm=None, deriv=False, _scale=1, tie=False):
             out[idx] = True
         return out
 
+    def h_argmin(it, e, ins):
+        # a pivot chosen by argmin is not the pivot rule of the contract: recorded as a violated rule (the native search below decides), evaluation continues
+        k = calls["argmax"]
+        calls["argmax"] += 1
+        if k >= len(perm):
+            raise Unsupported("more pivot selections than pivots")
+        pivot_rule.append(False)
+        last_argmax["v"], last_argmax["k"] = ins[0], k
+        return np.asarray(perm[k], dtype=np.dtype(e.outvars[0].aval.dtype))
+
     f = lambda m: lu.modified_cholesky(m, 0, r)
     tag = f"[n={n},rank={r},pivots={'-'.join(map(str, perm[:r]))}{'' if tie is False or tie is None else ',tie@' + str(0 if tie is True else int(tie))}]"
     if deriv:
-        return _jax_deriv(n, r, perm, inp, sp, As, Ax, f, tag, calls, dict(argmax=h_argmax, abs=h_abs, pow=h_pow, ge=h_ge, reduce_max=h_reduce_max), t0)
+        return _jax_deriv(n, r, perm, inp, sp, As, Ax, f, tag, calls, dict(argmax=h_argmax, argmin=h_argmin, abs=h_abs, pow=h_pow, ge=h_ge, reduce_max=h_reduce_max), t0, pivot_rule)
     name = "C17.jax.exact" + tag
-    out, it = evaluate(sp, f, (As,), (jnp.asarray(Ax),), prim_hook={"argmax": h_argmax, "abs": h_abs, "pow": h_pow, "reduce_max": h_reduce_max})
+    out, it = evaluate(sp, f, (As,), (jnp.asarray(Ax),), prim_hook={"argmax": h_argmax, "argmin": h_argmin, "abs": h_abs, "pow": h_pow, "reduce_max": h_reduce_max})
     L = np.asarray(out, dtype=object)
     G = L.T.dot(L)
     o = H.identity(name, G, As * _scale, functions=[FN_JX], inputs=inp, t0=t0,
                    note=f"Gram matrix of the {r} returned vectors == A for every PSD A of rank {r} whose pivot order is {perm[:r]} ({calls['argmax']} argmax, {calls['pow']} sqrt)")
     nat = np.asarray(f(jnp.asarray(Ax)))
-    x = H.crosscheck(name, inp, L, nat, functions=[FN_JX])
+    # the float cross-check presupposes that the native run takes the enumerated pivot order: only meaningful when the pivot rule holds
+    x = H.crosscheck(name, inp, L, nat, functions=[FN_JX]) if all(pivot_rule) else None
     if o["status"] == REFUTED:
         dev = float(np.abs(nat.T @ nat - Ax).max())
         o["replayed"] = bool(dev > 1e-8)
@@ -395,7 +406,7 @@ def jax_exact(n, rank=None, perm=None, deriv=False, _scale=1, tie=False):
     return [o, o2] + ([x] if x else [])
 
 
-def _jax_deriv(n, r, perm, inp, sp, As, Ax, f, tag, calls, hooks, t0):
+def _jax_deriv(n, r, perm, inp, sp, As, Ax, f, tag, calls, hooks, t0, pivot_rule=()):
     """C17.jax.deriv[...]: forward-mode derivative of the factor is finite (no division by an identically zero pivot) and the
     derivative of the reconstruction sum_g L_g L_g^T in any symmetric direction T equals T (full rank)."""
     from vc.jxvc import harness as H
@@ -417,7 +428,9 @@ def _jax_deriv(n, r, perm, inp, sp, As, Ax, f, tag, calls, hooks, t0):
     o = H.identity(name, dG, Ts, functions=[FN_JX], inputs=inp, t0=t0,
                    note=f"d/dA [sum_g L_g L_g^T] in a symbolic symmetric direction == that direction; tangent finite (rank {r} = n, pivots {perm[:r]})")
     Ln, dLn = g(jnp.asarray(Ax), jnp.asarray(Tx))
-    x = H.crosscheck(name, inp, dL, np.asarray(dLn), functions=[FN_JX])
+    x = H.crosscheck(name, inp, dL, np.asarray(dLn), functions=[FN_JX]) if all(pivot_rule) else None
+    if not all(pivot_rule):
+        o = dict(o, status=UNDECIDED, detail="the pivot rule is violated (see jax.pivot): the derivative obligation presupposes it") if o["status"] != REFUTED else o
     if o["status"] == REFUTED:
         # native replay: central finite difference of the reconstruction
         h = 1e-6
